@@ -244,44 +244,10 @@ def run(chk):
     chk.check(cob_src is not None and src(cob_src) == "_raw_from(self.com_record[1])", "R2", f"{B}:PdoMap.read | COB-ID source", read.loc(),
               f"cob_id read from {src(cob_src) if cob_src is not None else '?'}")
 
-    # the mapping loop of read(): cleared first, sub-indices 1..count, one add_variable per non-empty entry
-    clears = [n for n in fr.cfg.nodes if n.kind == "stmt" and isinstance(n.ast, ast.Expr) and isinstance(n.ast.value, ast.Call)
-              and dotted(n.ast.value.func) == "self.clear"]
-    adds = find_calls(read.node, "self.add_variable")
-    chk.floor("R2", len(adds), 1, "add_variable in read")
-    for c in adds:
-        st = fr.stmt_of(c)
-        cn = fr.cfg.node_of(st)
-        chk.check(any(fr.cfg.dominates(x, cn) for x in clears), "R2", f"{B}:PdoMap.read | old mapping cleared first", read.loc(c),
-                  "no self.clear() dominates add_variable(): entries of a previous read()/configuration stay in the map")
-        chk.check([src(a) for a in c.args] == ["index", "subindex", "size"] and not c.keywords, "R2", f"{B}:PdoMap.read | add_variable arguments", read.loc(c),
-                  f"{src(c)}; expected add_variable(index, subindex, size)")
-        g = [(fr.norm(e, subst=False), p) for e, p in fr.facts_at(st)]
-        guards = [(t, p) for t, p in g if "curtis_hack" not in t]
-        pos = {t for t, p in guards if p}
-        chk.check(all(p for _, p in guards) and pos <= {"index", "size", "index and size", "size and index"} and pos, "R2",
-                  f"{B}:PdoMap.read | entry kept when non-empty", read.loc(c), f"add_variable() runs under {guards}; expected `index and size`")
-        loops = enclosing(read.node, st, (ast.For,))
-        chk.check(len(loops) == 1, "R2", f"{B}:PdoMap.read | mapping loop", read.loc(c), "add_variable() is not inside exactly one loop")
-        for lp in loops[:1]:
-            it = lp.iter
-            okr = (isinstance(it, ast.Call) and dotted(it.func) == "range" and len(it.args) == 2 and folder.try_fold(it.args[0], fsc, None) == 1)
-            cnt_name = None
-            if okr:
-                hi = it.args[1]
-                hs = fr.norm(hi, subst=False)
-                m = [nm for nm in [x.id for x in ast.walk(hi) if isinstance(x, ast.Name)]]
-                okr = len(m) == 1 and hs in (f"{m[0]} + 1", f"1 + {m[0]}")
-                cnt_name = m[0] if m else None
-            chk.check(okr, "R2", f"{B}:PdoMap.read | sub-indices 1..count", read.loc(lp), f"loop over `{src(it)}`; expected range(1, count + 1)")
-            if cnt_name:
-                d = fr.one_def(cnt_name)
-                chk.check(d is not None and src(d) == "_raw_from(self.map_array[0])", "R2", f"{B}:PdoMap.read | count source", read.loc(lp),
-                          f"{cnt_name} = {src(d) if d is not None else '?'}; expected _raw_from(self.map_array[0])")
-            lv = src(lp.target)
-            vals = [n for n in own_nodes(lp) if isinstance(n, ast.Assign) and src(n.targets[0]) == "value"]
-            chk.check(len(vals) == 1 and src(vals[0].value) == f"_raw_from(self.map_array[{lv}])" and vals[0] is lp.body[0], "R2",
-                      f"{B}:PdoMap.read | entry source", read.loc(lp), f"value = {[src(v.value) for v in vals]}; expected _raw_from(self.map_array[{lv}]) as the first statement of the loop")
+    from . import shared
+    shared.read_mapping_loop(chk, "R2")
+    shared.mapping_length_exact(chk, "R2")
+    shared.fill_map_complete(chk, "R1")
 
     # ------------------------------------------------------------------ R3 sub-index agreement
     save_pairs, read_pairs = {}, {}
